@@ -48,7 +48,8 @@ LIMIT_S = 1.0
 # isomorphic phrase palettes (phrase across which a member reaches its predecessor, ... its successor)
 PALETTES = [('prev', 'next'), ('succeeds', 'precedes'), ('b', 'a'), ('is after', 'is before'),
             ('next', 'prev')]
-MODES = 3          # how the links are issued: 0 relate(x, succ) forwards, 1 relate(succ, x) from the other end backwards, 2 alternating
+MODES = 4          # how the links are issued: 0 relate(x, succ) forwards, 1 relate(succ, x) from the other end backwards, 2 alternating,
+                   # 3 forwards, then a history of relate / unrelate / delete that ends in the same arrangement
 MAX_HANGS = 3      # confirmed hangs (whole run) after which the remaining calls are skipped
 
 _HANGS = multiprocessing.Value('i', 0)
@@ -169,7 +170,7 @@ class World(object):
 def links_of(succ, mode):
     '''[(x, y, issued_from_x)]: y is the successor of x; the order and the end the relate call is issued from depend on mode.'''
     links = [(x, y) for x, y in enumerate(succ) if y is not None]
-    if mode == 0:
+    if mode in (0, 3):
         return [(x, y, True) for x, y in links]
     if mode == 1:
         return [(x, y, False) for x, y in reversed(links)]
@@ -200,6 +201,28 @@ def build(succ, mode, pal):
             xtuml.relate(w.insts[x], w.insts[y], REL, p_succ)
         else:
             xtuml.relate(w.insts[y], w.insts[x], 'R%d' % REL, p_pred)
+    if mode == 3:
+        # the same arrangement reached through a longer history: every link is unrelated and related again, every open
+        # end is connected to an open start and disconnected again, and a temporary instance is appended and deleted
+        has_pred = set(y for y in succ if y is not None)
+        for x, y in enumerate(succ):
+            if y is not None:
+                xtuml.unrelate(w.insts[x], w.insts[y], REL, p_succ)
+                xtuml.relate(w.insts[x], w.insts[y], REL, p_succ)
+        for x, y in enumerate(succ):
+            if y is None:
+                free = [z for z in range(len(succ)) if z not in has_pred and z != x]
+                if free:
+                    xtuml.relate(w.insts[x], w.insts[free[0]], REL, p_succ)
+                    xtuml.unrelate(w.insts[free[0]], w.insts[x], REL, p_pred)
+                tmp = m.new('A')
+                xtuml.relate(w.insts[x], tmp, REL, p_succ)
+                xtuml.delete(tmp)
+        for z in range(len(succ)):
+            if z not in has_pred:
+                tmp = m.new('A')
+                xtuml.relate(tmp, w.insts[z], REL, p_succ)
+                xtuml.delete(tmp)
     w.label = dict((inst, k) for k, inst in enumerate(w.insts))
     # harness precondition (not the property): the links are the intended ones
     pred = [None] * len(succ)
@@ -309,6 +332,19 @@ def run_sort(w, S, pi, relspell):
     labels = [w.label.get(x, '?%s' % type(x).__name__) for x in out]
     if n != len(out):
         labels.append('len=%d' % n)
+    # the call must leave its argument alone, and asking again must give the same answer
+    after = [w.label.get(x, '?') for x in itertools.islice(iter(qs), 4 * len(w.insts) + 4)]
+    if after != list(S):
+        return 'ok', labels + ['input-set-changed-to=%r' % (after,)]
+    try:
+        with core.time_limit(LIMIT_S):
+            again = [w.label.get(x, '?') for x in itertools.islice(iter(xtuml.sort_reflexive(qs, rel, phrase)), 4 * len(w.insts) + 4)]
+    except core.Timeout:
+        return 'hang', None
+    except Exception as e:
+        return 'exception', type(e).__name__
+    if again != labels:
+        return 'ok', labels + ['second-call=%r' % (again,)]
     return 'ok', labels
 
 
@@ -348,6 +384,13 @@ def check_one(sub, w, n, succ, mode, pal, S, pi, relspell):
         return True
     sub.count('judged_' + kind)
     sub.distinct('outcomes', (n, tuple(out)))
+    if out and isinstance(out[-1], str) and out[-1].startswith(('input-set-changed', 'second-call')):
+        case = make_case(n, succ, mode, pal, S, pi, relspell)
+        what = out[-1].split('=')[0]
+        sub.violation('c16:%s' % what, case,
+                      'successors %r, set %r sorted across %r: %s' % (list(succ), list(S), w.pal[pi], out[-1]),
+                      None, out, unit_test=unit_test(case))
+        return True
     bad = judge(w, S, pi, out)
     if bad:
         case = make_case(n, succ, mode, pal, S, pi, relspell)
